@@ -353,9 +353,9 @@ fn directive(nthreads: usize) -> impl Strategy<Value = Directive> {
     let bg_points = vec!["flush.before_build", "manifest.before_append", "manifest.after_append", "compaction.step", "gc.before_delete", "gc.after_delete"];
     prop_oneof![
         3 => (0..nthreads as i32, select(client_points), 0u32..4, 20u32..150)
-            .prop_map(|(role, p, nth, max_hold_ms)| Directive { role, point: p.to_string(), nth, max_hold_ms }),
+            .prop_map(|(role, p, nth, max_hold_ms)| Directive { role, point: p.to_string(), nth, max_hold_ms, linger_ms: 0 }),
         1 => (select(bg_points), 0u32..3, 20u32..120)
-            .prop_map(|(p, nth, max_hold_ms)| Directive { role: -1, point: p.to_string(), nth, max_hold_ms }),
+            .prop_map(|(p, nth, max_hold_ms)| Directive { role: -1, point: p.to_string(), nth, max_hold_ms, linger_ms: 0 }),
     ]
 }
 
@@ -382,7 +382,7 @@ pub fn c05_fault_strategy() -> BoxedStrategy<ConcCase> {
             c.wal_fault = Some(n);
             for (role, nth, ms) in holds {
                 if (role as usize) < c.programs.len() {
-                    c.directives.push(Directive { role, point: "write.before_wal".into(), nth, max_hold_ms: ms });
+                    c.directives.push(Directive { role, point: "write.before_wal".into(), nth, max_hold_ms: ms, linger_ms: 0 });
                 }
             }
             c
@@ -420,7 +420,7 @@ pub fn c09_forced_strategy() -> BoxedStrategy<ConcCase> {
         0u32..6,
         10u32..60,
     )
-        .prop_map(|(p, nth, max_hold_ms)| Directive { role: -1, point: p.to_string(), nth, max_hold_ms });
+        .prop_map(|(p, nth, max_hold_ms)| Directive { role: -1, point: p.to_string(), nth, max_hold_ms, linger_ms: 0 });
     let random = (c09_strategy(), prop::collection::vec(bg, 1..4)).prop_map(|(mut c, d)| {
         c.directives = d;
         c
@@ -460,13 +460,23 @@ pub fn c09_forced_strategy() -> BoxedStrategy<ConcCase> {
                 nkeys: 6,
                 programs: vec![p0, p1],
                 directives: vec![
-                    Directive { role: 1, point: "get.unlocked".into(), nth: 0, max_hold_ms: delay },
-                    Directive { role: -1, point: "compaction.step".into(), nth, max_hold_ms: hold },
+                    Directive { role: 1, point: "get.unlocked".into(), nth: 0, max_hold_ms: delay, linger_ms: 0 },
+                    Directive { role: -1, point: "compaction.step".into(), nth, max_hold_ms: hold, linger_ms: 0 },
                 ],
                 wal_fault: None,
             }
         });
-    prop_oneof![3 => random, 1 => structured].boxed()
+    // Close race: the background thread is held after it drained its task buffer until the clients
+    // are done, and lingers a little, so that it resumes while the database is being closed with a
+    // task that was scheduled in the meantime still unprocessed.
+    let closing = (c09_strategy(), 0u32..8, 20u32..200, 2u32..40).prop_map(|(mut c, nth, max_hold_ms, linger_ms)| {
+        for p in c.programs.iter_mut() {
+            p.truncate(25);
+        }
+        c.directives = vec![Directive { role: -1, point: "worker.tasks_drained".into(), nth, max_hold_ms, linger_ms }];
+        c
+    });
+    prop_oneof![6 => random, 2 => structured, 2 => closing].boxed()
 }
 
 pub enum Outcome {
